@@ -656,10 +656,18 @@ def pred_allof_not_dropped(rec, doc):
             except Exception: return None
             fuel -= 1
         return (m.get("properties") or {}).get(member) if isinstance(m, dict) else None
+    def has_not(x, fuel=6):
+        """the declaration carries a deny list: directly, behind a reference, or inside a nullable oneOf / anyOf wrapper"""
+        if fuel <= 0 or not isinstance(x, dict): return False
+        if "not" in x: return True
+        if isinstance(x.get("$ref"), str):
+            try: return has_not(gen.resolve_ref(doc, x["$ref"]), fuel - 1)
+            except Exception: return False
+        return any(has_not(b, fuel - 1) for k in ("oneOf", "anyOf", "allOf") for b in (x.get(k) or []) if isinstance(b, dict))
     for member in members:
         for branches in allofs(S):
             ds = [d for d in (declares(b, 6, member) for b in branches) if isinstance(d, dict)]
-            if len(ds) >= 2 and any("not" in d for d in ds): return True
+            if len(ds) >= 2 and any(has_not(d) for d in ds): return True
     return False
 
 def flatten_unions(dump):
